@@ -33,6 +33,25 @@ def de_bruijn(k, n):
     return [x + 1 for x in seq]
 
 
+def skewed(rng, steps=16):
+    """A two-symbol context (10, 11) whose preceding symbols have Fibonacci-like counts: its code tree is a caterpillar deeper than 16
+    levels with four leaves at the bottom (round-5 seed C19-3: code words cut to 16 bits collapse those symbols)."""
+    counts = [1, 1, 1, 1]
+    merged, cur = 4, 3
+    for _ in range(steps):
+        counts.append(cur)
+        nxt = max(merged, cur) + 1
+        merged += cur
+        cur = nxt
+    syms = [100 + i for i in range(len(counts))]
+    occ = [s for s, c in zip(syms, counts) for _ in range(c)]
+    rng.shuffle(occ)
+    text = []
+    for s in occ:
+        text += [s, 10, 11]
+    return text, syms
+
+
 def docs(rng, thorough):
     out = []
 
@@ -76,6 +95,8 @@ def docs(rng, thorough):
         for k in (65535, 65536, 65537):
             add(list(range(k)) + [3, 2, 1])
     add([9, 9, 9, 9, 1, 9, 9, 9, 9])
+    sk, syms = skewed(rng)
+    add(sk, starts=[0, 301, 5000, len(sk) - 7], extra_needles=[[x, 10, 11] for x in syms[:8]] + [[x, 10] for x in syms[:5]] + [[11, x] for x in syms[:6]] + [[syms[0]], [syms[5], 10, 11, syms[-1]]])
     add([2 ** 31 - 9, 1, 2 ** 31 - 9, 2 ** 30, 0, 0, 1])    # symbol 0 and the largest symbol TLC can hold (its integers are 32-bit)
     if thorough:
         for _ in range(40):
